@@ -542,11 +542,16 @@ def gen_userpred(rng):
     for x, y in pairs:
         if len(preds) >= n:
             break
-        if frozenset((x, y)) in used:
-            continue
-        used.add(frozenset((x, y)))
         k = "dir" if rng.random() < (0.35 if cls == "rev" else 0.7) else "sym"
+        # a directed term and its reverse may both be present (x>y and y>x with different values: the masks add up to a
+        # symmetric pattern but the process is not reversible); an undirected pair appears once
+        if (k, x, y) in used or (k == "sym" and ("sym", y, x) in used):
+            continue
+        used.add((k, x, y))
         preds.append([k, x, y])
+        if k == "dir" and len(preds) < n and rng.random() < 0.4 and ("dir", y, x) not in used:
+            used.add(("dir", y, x))
+            preds.append(["dir", y, x])
     if cls == "rev" and rng.random() < 0.25:  # named predicates exist for the time-reversible family only
         preds[rng.randrange(len(preds))] = ["named", "kappa", None]
     perm = list(range(len(preds)))
